@@ -1,7 +1,8 @@
 (* C04 property theorems.  Nothing but statements closed by `exact`, statement pins and
    Print Assumptions.  bs ranges over ALL bit lists, p/k/i over all naturals. *)
-From Coq Require Import List Arith Lia Bool.
+From Coq Require Import List Arith NArith Lia Bool.
 From ZV.C04 Require Import Spec Model ModelIL ProofsRank ProofsFew ProofsSelect ProofsSelect0 ProofsIL.
+From ZV.C04 Require Import ModelGen ModelILSel ModelRun ProofsGen ProofsILSel.
 Import ListNotations.
 
 (* --- spec layer: the definition itself has the laws the property names --- *)
@@ -131,4 +132,40 @@ Example se512_nonvacuous :
   let bs := repeat true 300 ++ repeat false 213 ++ repeat true 87 in
   se_rank1 (build bs true true) 600 = Some 387 /\ se_rank1 (build bs true true) 513 = Some 300 /\
   se_select1 (build bs true true) 300 = Some 513 /\ se_select1 (build bs true true) 387 = None.
+Proof. vm_compute. repeat split; reflexivity. Qed.
+
+(* --- RankSelectInterleaved256 select1 / select0 as written (interleaved.rs): the sampled select cache built by
+       walking the bits, select1_from_hint + select1_linear_search, and - with the cache disabled - binary_search_lines
+       + select1_within_line + uint_select1_bmi2; select0 by upper bound over line zero counts and the inverted,
+       zero-padded words.  For every bit list, every k, every sample rate, cache on or off: the position of the
+       k-th one / zero, refused exactly when k is not below the number of ones / zeros
+       (spec_select_defined_iff).  select1_hardware_accelerated / _adaptive / _optimized are this function. --- *)
+Theorem il256_select1_correct : forall bs enable rate k,
+  ils_select1 (ils_build bs enable rate) k = select1 bs k.
+Proof. exact ils_select1_correct_proof. Qed.
+Check il256_select1_correct : forall bs enable rate k,
+  ils_select1 (ils_build bs enable rate) k = select1 bs k.
+Print Assumptions il256_select1_correct.
+
+(* the answer does not depend on what the select cache holds: any list of hints gives the k-th one *)
+Theorem il256_select1_any_hints : forall bs c rate k,
+  ils_select1 {| ils := il_build bs; il_nbits := N.of_nat (length bs); il_cache := c; il_rate := rate |} k = select1 bs k.
+Proof. exact ils_select1_any_cache. Qed.
+Check il256_select1_any_hints : forall bs c rate k,
+  ils_select1 {| ils := il_build bs; il_nbits := N.of_nat (length bs); il_cache := c; il_rate := rate |} k = select1 bs k.
+Print Assumptions il256_select1_any_hints.
+
+Theorem il256_select0_correct : forall bs enable rate k,
+  ils_select0 (ils_build bs enable rate) k = select0 bs k.
+Proof. exact ils_select0_correct_proof. Qed.
+Check il256_select0_correct : forall bs enable rate k,
+  ils_select0 (ils_build bs enable rate) k = select0 bs k.
+Print Assumptions il256_select0_correct.
+
+Example il256_select_nonvacuous :
+  let bs := repeat true 300 ++ repeat false 213 ++ repeat true 87 in
+  ils_select1 (ils_build bs true 64) 300 = Some 513 /\ ils_select1 (ils_build bs false 64) 300 = Some 513 /\
+  ils_select1 (ils_build bs false 64) 255 = Some 255 /\ ils_select1 (ils_build bs true 64) 387 = None /\
+  ils_select0 (ils_build bs true 64) 212 = Some 512 /\ ils_select0 (ils_build bs true 64) 213 = None /\
+  il_cache (ils_build bs true 64) = Some [63; 127; 191; 255; 532; 596; 599]%N.
 Proof. vm_compute. repeat split; reflexivity. Qed.
